@@ -7,10 +7,10 @@ Local Open Scope N_scope.
 Definition no_panic {A} (r : rres A) : Prop := exists x, r = ROk x.
 
 (** the renderer is only ever handed positions whose file is in the store (the CLI's FileStore hands
-    out the indices it later looks up) and whose column is a machine integer that leaves room for
-    [column + 1] *)
+    out the indices it later looks up) and whose line and column are machine integers that leave
+    room for [+ 1] *)
 Definition pos_in_store (files : list (str * str)) (p : rpos) : bool :=
-  rp_builtin p || ((rp_file p <? N.of_nat (length files)) && (rp_col p <? usize_max)).
+  rp_builtin p || ((rp_file p <? N.of_nat (length files)) && (rp_line p <? usize_max) && (rp_col p <? usize_max)).
 
 Definition render_guard (files : list (str * str)) (pos : option rpos) (addl : list (rpos * str)) : bool :=
   match pos with
